@@ -216,8 +216,11 @@ func (c *Authority) VerifyAnyQC(proposal *hotstuff.ProposeMsg) error {
 		if err != nil {
 			return err
 		}
-		// for simplicity, we require that the highQC found in the AggregateQC equals the block's QC.
-		if !qc.Equals(highQC) {
+		// The block's QC must certify the block that the highQC found in the AggregateQC certifies.
+		// Several valid QCs for one block may circulate (assembled from different votes), and which
+		// of them is found is arbitrary, so compare what they certify rather than their signatures;
+		// the block's own QC is verified below.
+		if qc.View() != highQC.View() || qc.BlockHash() != highQC.BlockHash() {
 			return fmt.Errorf("block QC does not match the highQC of the block's aggregate QC")
 		}
 	}
